@@ -23,6 +23,7 @@ def spaces(tier):
             dict(family='pairs', size=1, level=0, cfg='K0', t0=['empty', 'full', 'dir_d_j'], mut='plant'),
             dict(size=2, level=0, cfg='K0', t0=['file_d', 'file_d_e', 'full'], mut='none', kw=viol, crash='all'),
             dict(size=2, level=0, cfg='K0', t0=['dir_d_j', 'full'], mut='plant', kw=small),
+            dict(family='bulk', size=1, level=0, cfg='K0', t0=['empty'], mut='none', ns=[1, 127, 128, 129, 130, 257]),
         ]
     return [
         dict(size=1, level=l, cfg=c, t0=list(gen.T0S), mut='all') for l in (0, 1) for c in ('K0', 'K1')
@@ -30,12 +31,17 @@ def spaces(tier):
         dict(family='pairs', size=1, level=0, cfg='K0', t0=list(gen.T0S), mut='plant'),
         dict(size=2, level=0, cfg='K0', t0=list(gen.T0S), mut='none', kw=dict(oblig=False), crash='all'),
         dict(size=2, level=0, cfg='K0', t0=['dir_d_j', 'full', 'file_d'], mut='rel'),
+        dict(family='bulk', size=1, level=0, cfg='K0', t0=['empty'], mut='none', ns=[1, 127, 128, 129, 130, 257, 128 * 128 + 2]),
     ]
 
 
 def tasks(tier, seed):
     out = []
     for si, sp in enumerate(spaces(tier)):
+        if sp.get('family') == 'bulk':
+            for i in range(len(sp['ns'])):
+                out.append({'tier': tier, 'space': si, 'slice': [i, len(sp['ns'])]})
+            continue
         n = 16 if (sp['size'] == 1 and sp.get('family') != 'pairs') else 64
         for i in range(n):
             out.append({'tier': tier, 'space': si, 'slice': [i, n]})
@@ -73,6 +79,8 @@ def work(ctx, task):
     world = World(ctx.sb, ctx.fb, sp['cfg'])
     full = mutation_alphabet()
     capped = False
+    if sp.get('family') == 'bulk':
+        return bulk(ctx, sp, i, acc, world)
     if sp.get('family') == 'pairs':
         it = pair_programs(sp['level'])
     else:
@@ -134,6 +142,29 @@ def work(ctx, task):
                     acc.samples.append({'history': world.spec()})
             world.drop(h)
     return acc.result(world, capped)
+
+
+def bulk(ctx, sp, i, acc, world):
+    """N foreign files overwritten by one build that then fails: every one of
+    them must be back (the backup store changes layout at 128 entries)."""
+    N = sp['ns'][i]
+    for tail in ('raise', 'ok'):
+        world.start()
+        for j in range(N):
+            world.mutate(['w', 'f%05d' % j, 'A'])
+        prog = {'level': 0, 'root': [{'k': 'bf', 'p': 'f%05d' % j, 'mode': 'ok', 'catch': False, 'ch': []}
+                                     for j in range(N)] + ([{'k': 'raise'}] if tail == 'raise' else [])}
+        world.steps = [{'op': 'note', 'bulk': N, 'tail': tail}]
+        r = world.build(prog, check_ref=False)
+        world.steps = [{'op': 'note', 'bulk': N, 'tail': tail}]
+        acc.count('histories')
+        acc.count('programs')
+        acc.take(world, r)
+        acc.outcome('bulk', N, tail, r.real[0])
+        if tail == 'ok':
+            c = world.clean()
+            acc.take(world, c)
+    return acc.result(world, False)
 
 
 def coverage(res, tier):
